@@ -151,6 +151,18 @@ Proof.
     destruct H as ((A & B & _) & C & _). split; [exact A|]. split; [exact C|exact B].
 Qed.
 
+(* the element constructor called with the emplace arguments throws: the container is exactly as before *)
+Lemma ctor_throw_unchanged : forall st key,
+  fst (emplace_back_ctor_throws st) = st /\ fst (emplace_ctor_throws key st) = st /\
+  (size st < cap st -> snd (emplace_back_ctor_throws st) = Faulted) /\
+  (size st < cap st -> key <= size st -> snd (emplace_ctor_throws key st) = Faulted).
+Proof.
+  intros st key. unfold emplace_back_ctor_throws, emplace_ctor_throws.
+  destruct (cap st <=? size st) eqn:E1; [apply Nat.leb_le in E1|apply Nat.leb_gt in E1];
+    (destruct (size st <? key) eqn:E2; [apply Nat.ltb_lt in E2|apply Nat.ltb_ge in E2]);
+    simpl; repeat split; auto; intros; lia.
+Qed.
+
 (* the strong invariant is really lost there when elements move: witnesses *)
 Lemma throw_in_positional_op_exposes_moved_from :
   (exists st p key v st', Inv st /\ emplace p key (Filled v) st = (st', Faulted) /\ ~ Inv st') /\
@@ -306,7 +318,8 @@ Definition writes (o : op) : list nat :=
   | OEmplace i _ _ | OEmplaceBack i _ | OInsert i _ | OInsertMove i _ | OPushBack i _
   | OInsertRange i _ _ | OInsertList i _ _ | OPushBackRange i _ | OPop i | OErase i _ | ODestroy i
   | OEmplaceAt i _ _ | OEmplaceBackAt i _ | OInsertAt i _ | OPushBackAt i _ | OInsertSelfRange i _ _ _ | OPushBackSelfRange i _ _
-  | OEraseBefore i _ | OEmplaceBefore i _ _ | OInsertRangeBefore i _ _ | OConstructFrom i _ _ => [i]
+  | OEraseBefore i _ | OEmplaceBefore i _ _ | OInsertRangeBefore i _ _ | OConstructFrom i _ _
+  | OEmplaceBackCtorThrows i | OEmplaceCtorThrows i _ => [i]
   end.
 
 Lemma on_obj_frame P i f P' o k : on_obj P i f = (P', o) -> k <> i -> nth_error P' k = nth_error P k.
